@@ -13,7 +13,7 @@ macro_rules! opaque { ($($n:ident),*) => { $( pub struct $n { _p: u64 } impl Clo
 opaque!(CacheInfo, ImportAttributes, SpecifierError, ResolveError, ChecksumIntegrityError, LoadError, JsrLoadError, NpmLoadError, JsErrorBox, WasmParseError, NpmPackageReqReference, FastCheckDiagnostic, FastCheckDtsModule, PackageSpecifiers);
 pub trait JsErrorClass {}
 pub mod wasm_dep_analyzer { pub use super::WasmParseError as ParseError; }
-pub mod fast_check { pub use super::{FastCheckDiagnostic, FastCheckDtsModule}; }
+// (mod fast_check: prelude/fc_mod_min.rs, or prelude/fcg_foreign.rs in the fcgraph unit)
 
 verus! {
 
